@@ -1,5 +1,6 @@
 import SemantivaModel.Driver.C01
 import SemantivaModel.Driver.C02
+import SemantivaModel.Driver.C06
 import SemantivaModel.Driver.C08
 import SemantivaModel.Driver.C11
 import SemantivaModel.Driver.C12
@@ -37,6 +38,8 @@ def dispatch (st : DState) (j : Json) : Except String (DState × Json) := do
     pure ({ st with c01 := s }, r)
   else if m.startsWith "c02." then
     pure (st, ← C02.handle m j)
+  else if m.startsWith "c06." then
+    pure (st, ← C06.handle m j)
   else throw s!"unknown model op {m}"
 
 partial def loop (h : IO.FS.Stream) (out : IO.FS.Stream) (st : DState) : IO Unit := do
